@@ -39,6 +39,12 @@ CLAIMED = {
  "C13": ("deterministic simulation of three cooperating actors (producer, consumer, lifetime) on the task primitive: seeded orderings incl. re-entrant calls from inside continuations and deferred deletion through the simulated dispatcher; task reference model + instance counters under ASan",
          "seeded search over operation orderings for void, copyable and move-only results; refinement against a small reference model; a clean batch is evidence, not proof; the space is small and not enumerated exhaustively",
          "no I/O involved; ASan/UBSan keep lifetime errors visible"),
+ "C16": ("deterministic simulation with fault injection: real QXmppServer over simulated sockets, scripted raw clients (any order, pipelining, stream restarts) and a password checker whose replies complete in scheduler-chosen order and delay; authentication/routing model with origin attribution",
+         "seeded search over client scripts and completion orders; safety monitor on everything any connection receives; a clean batch is evidence, not proof",
+         "transport and password checker simulated; S2S and TLS outside"),
+ "C18": ("deterministic simulation: seeded histories of manual decisions and trust messages with every storage completion scheduled (immediate / deferred / concurrent reordered); refinement against an XEP-0450 reference model, safety frame in concurrent mode",
+         "seeded search over histories and completion orders against a small executable reference model; a clean batch is evidence, not proof",
+         "storage completion timing simulated over the real memory storage; messages enter through QXmppClient::messageReceived"),
  "C09": ("deterministic simulation with fault injection: seeded histories of sends, acks (honest/adversarial), link losses and resumptions against an executable XEP-0198 reference model fed from the wire",
          "seeded search over histories and fault sequences with a real client and an independent scripted server; refinement against a small reference model after every step",
          "transport, TLS, clock and server are simulated; server-to-client delivery is element-wise"),
